@@ -115,10 +115,13 @@ def update_cmd_line_file(build_dir: str, options: SharedCMDOptions) -> None:
         return
     for k, v in options.cmd_line_options.items():
         keystr = str(k)
+        # The file is replayed top to bottom by --wipe and an option can be
+        # recorded under more than one spelling ("opt" and ":opt"): keep the
+        # entries in the order in which they were last given.
+        if keystr in config['options']:
+            del config['options'][keystr]
         if v is not None:
             config['options'][keystr] = str(v)
-        elif keystr in config['options']:
-            del config['options'][keystr]
 
     _write_config_file(filename, config)
 
